@@ -126,7 +126,8 @@ def query (st : St) (cmd : String) (arg : String) : List String :=
      s!"flags-frozen {bit (Spec.Linkage.flagsFrozenRegion ds)}",
      s!"inline-frozen-finding {bit (Spec.Linkage.inlineFrozenFinding ds)}",
      s!"dead-static-local {bit (Spec.Linkage.deadStaticLocalRegion ds)}",
-     s!"composite-size {bit (Spec.Linkage.compositeSizeRegion ds)}"] ++
+     s!"composite-size {bit (Spec.Linkage.compositeSizeRegion ds)}",
+     s!"extern-init-after-static {bit (Spec.Linkage.externInitAfterStaticRegion ds)}"] ++
     ((Spec.Linkage.fnNames ds).filterMap (fun f =>
       let D := Spec.Linkage.fnDecls ds f
       if Spec.Linkage.fnClass D != Spec.Linkage.fnClassFirst D then
